@@ -55,7 +55,7 @@ class C09(Check):
         "max None) and 5 jitter sequences; (b) Hypothesis: attempts 0..4, codes / exceptions sets {None, empty, one, several}, backoff "
         "parameters from short decimals, drawn jitter sequences, drawn outcome words. Oracle: reference retry model -> number of transport "
         "calls, the recorded time.sleep / asyncio.sleep arguments (isclose; none before the first or after the last send), the returned "
-        "response carries the LAST attempt's payload, a raised exception is the scripted instance (identity). non-trivial = at least one "
+        "response carries the LAST attempt's payload, a raised exception is the scripted instance (identity); the same request sent again through the same client and strategy objects shows the same sends and sleeps. non-trivial = at least one "
         "retry happened, or a retryable outcome was refused because attempts were exhausted; distinct = distinct spec."
     )
     assumptions = [
@@ -67,7 +67,8 @@ class C09(Check):
     trusted_base = ['retry model in pbt/clientharness.py']
     required_classes = ['kind/single', 'kind/batch', 'kind/notification', 'placement/client', 'placement/request', 'placement/request-none',
                         'placement/none', 'backoff/periodic', 'backoff/exponential', 'backoff/fibonacci', 'retried', 'exhausted',
-                        'client/sync', 'client/async', 'final/exception', 'final/response', 'attempts/0', 'jitter/nonzero', 'cap/hit']
+                        'client/sync', 'client/async', 'final/exception', 'final/response', 'attempts/0', 'jitter/nonzero', 'cap/hit',
+                        'repeat/second-request-retried-too']
 
     # ---- generation ------------------------------------------------------------------------------------------
 
@@ -219,12 +220,29 @@ class C09(Check):
                 attempt = self._attempt_of(value, final)
                 if attempt != final_idx:
                     discs.append(Disc("C09/returned-response-is-not-the-last-attempt", f"response of attempt {attempt}, expected {final_idx}: {value!r} | {where}"))
+        # the same request once more through the SAME client and strategy objects: a strategy is a configuration, not a consumable
+        # (only for constant jitter: a cyclic jitter sequence legitimately continues where the first request left it)
+        repeated = False
+        if not discs and len(s.get('jitter') or []) <= 1:
+            repeated = True
+            del client.sent[:]
+            raised_instances.clear()
+            with ch.captured_sleeps() as again:
+                try:
+                    ch.call(kind, fn)
+                except BaseException:  # noqa
+                    pass
+            if len(client.sent) != sends or len(again) != len(sleeps) or not all(ch.close(a, b) for a, b in zip(again, sleeps)):
+                discs.append(Disc("C09/second-request-through-the-same-strategy-differs",
+                                  f"first request: {sends} sends, sleeps {list(got_sleeps)}; second: {len(client.sent)} sends, sleeps {list(again)} | {where}"))
         retried = sends > 1
         exhausted = ch.outcome_retryable(final, effective, rkind)
         classes = [f"kind/{rkind}", f"placement/{placement}", f"backoff/{s['backoff']['kind']}", f"client/{kind}", f"attempts/{min(s['attempts'], 4)}",
                    'final/exception' if final['kind'] == 'exc' else 'final/response']
         if retried:
             classes.append('retried')
+            if repeated:
+                classes.append('repeat/second-request-retried-too')
         if exhausted:
             classes.append('exhausted')
         if retried and any(j != 0 for j in (s.get('jitter') or [])):
